@@ -5,7 +5,11 @@
        and, if that was a native reader, every native reader that was queued;
      * every record taken was handed to the mutex queue or had its waiting flag cleared, exactly one of the two and
        exactly once, and for each cleared flag the owner's semaphore was posted, in the same order.
-   Continues Proof/CvProof4.v. *)
+   Continues Proof/CvProof4.v.
+   At the end, layer G (the repair of F16): wake_waiters works on the mutex only when the first waiter is associated with
+   it, and moves to the mutex queue only native waiters associated with it, never a waiter of
+   nsync_cv_wait_with_deadline_generic with the caller's own lock routines; plus the transfer of the code BEFORE that
+   repair ([xfer_rest_old], [run_old]) and the regression run in which it queues a generic waiter on the mutex. *)
 From NsyncBase Require Import CSem.
 From NsyncGen Require Import Consts Sites.
 From NsyncModel Require Import CvModel.
@@ -296,4 +300,190 @@ Proof.
   simpl in Hp. simpl fst. pc_nf. eexists (kl_set_xfer k stay moved set_on _ _), moved. split; [reflexivity|]. split; [reflexivity|].
   split; [reflexivity|]. split; [|exact (proj1 Hp)].
   intros r Hr. unfold lc. simpl recs. unfold clear_cv_mu. rewrite map_recs_in by (try reflexivity; assumption). simpl. auto.
+Qed.
+
+(* ================================================================== *)
+(* Layer G: wake_waiters transfers only waiters associated with the    *)
+(* mutex (the repair of F16)                                           *)
+(* ================================================================== *)
+(* wake_waiters works on the mutex only if the first waiter is associated with it (pmu = first_w->cv_mu != NULL) *)
+Definition first_assoc (w : world) (p : pc) : Prop :=
+  match p with
+  | VLoad1 k | VCas1 k _ => exists f rest, k_wake k = f :: rest /\ cv_mu (recs w f) = true
+  | _ => True
+  end.
+Definition GInv (w : world) : Prop := forall t, first_assoc w (pcof w t).
+
+(* which steps write the cv_mu field of a record *)
+Lemma step_core_cvmu w t c r : (t < length (thr w))%nat ->
+  let w' := fst (step_core w t c) in
+  cv_mu (recs w' r) = cv_mu (recs w r) \/
+  (r = t /\ exists l, pcof w t = WStore1 l \/ pcof w t = WLoadMu l) \/
+  (exists k old, pcof w t = VCas1 k old /\ In r (k_wake k)).
+Proof.
+  intros Hlt. cbv zeta. unfold pcof.
+  step_cases w t; try rewrite Hpc in *; simpl fst; simpl recs; unfold clear_cv_mu.
+  all: try solve [left; frame_field cv_mu].
+  all: try solve [destruct (Nat.eq_dec r t) as [->|Hne]; [right; left; split; [reflexivity|]; eexists; eauto | left; now rewrite fupd_other by assumption]].
+  all: sel_part.
+  all: try solve [destruct (in_dec Nat.eq_dec r l) as [Hin|Hnin];
+                  [right; right; eexists _, _; split; [reflexivity|]; apply (proj1 Hp); auto | left; now rewrite map_recs_notin by assumption]].
+Qed.
+
+Lemma first_assoc_after_todo w k : first_assoc w (after_todo k) = True.
+Proof. unfold after_todo. destruct (k_todo k); reflexivity. Qed.
+Lemma first_assoc_enter_wake_loop w k : first_assoc w (enter_wake_loop k) = True.
+Proof. unfold enter_wake_loop. destruct (k_wake k); reflexivity. Qed.
+
+(* the stepping thread: pmu != NULL is tested when wake_waiters starts, and nothing writes the field until the CAS *)
+Lemma G_self w t c : (t < length (thr w))%nat -> first_assoc w (pcof w t) ->
+  first_assoc (fst (step_core w t c)) (pcof (fst (step_core w t c)) t).
+Proof.
+  intros Hlt HG. unfold pcof in *.
+  step_cases w t; try rewrite Hpc in *; simpl fst; pc_nf; try rewrite Hpc;
+    rewrite ?first_assoc_after_todo, ?first_assoc_enter_wake_loop; simpl first_assoc; try exact I.
+  all: autorewrite with getdb; try rewrite Hpc; simpl first_assoc; try exact I.
+  all: try exact HG.
+  all: exists n, l; split; [exact Heql|]; destruct (is_mucv (recs w n) && cv_mu (recs w n)) eqn:E; [now apply andb_prop in E | discriminate Heqb].
+Qed.
+
+Lemma GInv_step_core w t c : PInv w -> (t < length (thr w))%nat -> GInv w -> GInv (fst (step_core w t c)).
+Proof.
+  intros HP Hlt HG s. destruct (Nat.eq_dec s t) as [->|Hne]; [apply G_self; [exact Hlt | apply HG]|].
+  unfold pcof. rewrite step_core_other by congruence. specialize (HG s). unfold pcof in HG.
+  destruct HP as ((Q0 & Q1 & Q2 & _) & HT). destruct (Q2 s) as (_ & Q2s). unfold pcof in Q2s.
+  destruct (HT t) as (Hnat & _). specialize (Hnat Hlt). destruct (Q2 t) as (_ & Q2t).
+  assert (Hkeep : forall f, In f (priv (t_pc (get w s))) -> cv_mu (recs (fst (step_core w t c)) f) = cv_mu (recs w f)).
+  { intros f Hf. specialize (Q2s f Hf). destruct (step_core_cvmu w t c f Hlt) as [E|[(-> & l & [E|E])|(k & old & E & Hin)]]; [exact E|..].
+    - rewrite E in Hnat. simpl in Hnat. destruct Hnat as (Hn & _). congruence.
+    - rewrite E in Hnat. simpl in Hnat. destruct Hnat as (Hn & _). congruence.
+    - rewrite E in Q2t. simpl in Q2t. specialize (Q2t f Hin). rewrite Q2s in Q2t. congruence. }
+  destruct (t_pc (get w s)); simpl in *; auto; destruct HG as (f & rest & A & B); exists f, rest; (split; [exact A|]);
+    (rewrite Hkeep; [exact B | rewrite A; left; reflexivity]).
+Qed.
+Lemma GInv_begin_op w t : PInv w -> GInv w -> GInv (begin_op w t).
+Proof.
+  intros HP HG s. destruct HP as ((Q0 & _ & Q2 & _) & _).
+  pose proof (begin_op_misc w t) as (_ & _ & _ & _ & _ & Hrec & _).
+  destruct (Nat.eq_dec s t) as [->|Hne].
+  - unfold pcof. destruct (begin_op_pc w t) as [E|(Hpc & _ & o & rest & _ & E)].
+    + rewrite E. specialize (HG t). unfold pcof in HG. destruct (Q2 t) as (_ & Q2t). unfold pcof in Q2t.
+      destruct (t_pc (get w t)); simpl in *; auto; destruct HG as (f & rest & A & B); exists f, rest; (split; [exact A|]);
+        (rewrite Hrec; [exact B|]); intros ->; specialize (Q2t (nrec w)); rewrite A in Q2t; specialize (Q2t (or_introl eq_refl));
+        rewrite (Q0 (nrec w) (le_n _)) in Q2t; discriminate.
+    + rewrite E. destruct o; simpl; try destruct (held (get w t)); exact I.
+  - unfold pcof. rewrite begin_op_other by congruence. specialize (HG s). unfold pcof in HG. destruct (Q2 s) as (_ & Q2s). unfold pcof in Q2s.
+    destruct (t_pc (get w s)); simpl in *; auto; destruct HG as (f & rest & A & B); exists f, rest; (split; [exact A|]);
+      (rewrite Hrec; [exact B|]); intros ->; specialize (Q2s (nrec w)); rewrite A in Q2s; specialize (Q2s (or_introl eq_refl));
+      rewrite (Q0 (nrec w) (le_n _)) in Q2s; discriminate.
+Qed.
+Lemma GInv_step w a c : Inv w -> GInv w -> GInv (fst (step w a c)).
+Proof.
+  intros (HT & HA & HS & HP) HG. destruct a as [t| | | | | | | |].
+  { simpl. destruct (le_lt_dec (length (thr w)) t) as [Hoob|Hlt]; [now rewrite step_thr_oob|].
+    unfold step_thr. apply GInv_step_core; [now apply PInv_begin_op | now rewrite (proj1 (proj2 (proj2 (begin_op_misc w t)))) | now apply GInv_begin_op]. }
+  all: match goal with |- GInv (fst (step ?w0 ?a ?c0)) =>
+         pose proof (env_frame w0 a c0 ltac:(intros; discriminate)) as (Hg & _ & _ & Hr & _) end.
+  all: intros s; specialize (HG s); unfold pcof in *; rewrite Hg; destruct (t_pc (get w s)); simpl in *; auto;
+       destruct HG as (f & rest & A & B); exists f, rest; (split; [exact A|]); now rewrite (proj2 (proj2 (proj2 (proj2 (proj2 (Hr f)))))).
+Qed.
+Lemma GInv_run progs clock0 exp sched : GInv (run (init progs clock0 exp) sched).
+Proof.
+  induction sched as [|[a c] s IH] using rev_ind.
+  - intros t. unfold pcof, run. simpl fold_left. rewrite (proj1 (get_init progs clock0 exp t)). exact I.
+  - rewrite run_snoc. apply GInv_step; [apply Inv_run | exact IH].
+Qed.
+
+(* every record the transfer moves to the mutex queue is a native waiter associated with the mutex *)
+Lemma transferred_is_native_reachable progs clock0 exp sched :
+  let w := run (init progs clock0 exp) sched in
+  forall t c k old, pcof w t = VCas1 k old -> muw w = old ->
+  let w' := fst (step w (Thr t) c) in
+  exists moved, muq w' = muq w ++ moved /\
+    forall r, In r moved -> is_mucv (recs w r) = true /\ cv_mu (recs w r) = true /\ cv_mu (recs w' r) = false /\ lc w' r = PMuq.
+Proof.
+  cbv zeta. intros t c k old Hpc Hmu. set (w := run (init progs clock0 exp) sched) in *.
+  pose proof (GInv_run progs clock0 exp sched t) as HG. fold w in HG. rewrite Hpc in HG. simpl in HG. destruct HG as (f & rest & Ek & Hcm).
+  destruct (Inv_run progs clock0 exp sched) as (_ & _ & _ & ((_ & _ & _ & _ & _ & _ & _ & _ & Q9 & _) & _)). fold w in Q9.
+  specialize (Q9 t). rewrite Hpc in Q9. simpl in Q9. destruct Q9 as (f' & rest' & Ek' & Hmc). rewrite Ek in Ek'. injection Ek' as <- <-.
+  unfold pcof in Hpc.
+  assert (Hlt : (t < length (thr w))%nat).
+  { destruct (le_lt_dec (length (thr w)) t) as [Hoob|]; [|assumption]. rewrite (get_oob w t Hoob) in Hpc. discriminate. }
+  assert (Hb : begin_op w t = w) by (unfold begin_op; now rewrite Hpc).
+  simpl step. unfold step_thr. rewrite Hb. unfold step_core. rewrite Hpc. unfold st_VCas1, wake_waiters_cas1_old. rewrite Hmu, Z.eqb_refl.
+  match goal with |- context [xfer ?rs ?fca ?wk] => pose proof (xfer_assoc rs fca f rest) as Ha; rewrite <- Ek in Ha; destruct (xfer rs fca wk) as [[moved stay] set_on] end.
+  simpl fst. exists moved. split; [reflexivity|]. intros r Hr. simpl in Ha. destruct (Ha r Hmc Hcm Hr) as (A & B).
+  split; [exact A|]. split; [exact B|]. unfold lc. simpl recs. unfold clear_cv_mu. rewrite map_recs_in by (try reflexivity; assumption). simpl. auto.
+Qed.
+
+(* ---------- the code BEFORE the repair of F16, for the regression example ---------- *)
+(* the transfer loop moved every later waiter with NSYNC_WAITER_FLAG_MUCV, whatever its cv_mu *)
+Fixpoint xfer_rest_old (rs : nat -> rec) (fca fw : bool) (q : list nat) (taw war : bool) : list nat * list nat * bool * bool :=
+  match q with
+  | [] => ([], [], taw, war)
+  | p :: rest =>
+      let piw := is_mucv (rs p) && is_W (l_type (rs p)) in
+      if negb (is_mucv (rs p)) then let '(m, s, a, b) := xfer_rest_old rs fca fw rest taw war in (m, p :: s, a, b)
+      else if fca || fw || piw then let '(m, s, a, b) := xfer_rest_old rs fca fw rest (taw || piw) war in (p :: m, s, a, b)
+      else let '(m, s, a, b) := xfer_rest_old rs fca fw rest taw (war || negb piw) in (m, p :: s, a, b)
+  end.
+Definition xfer_old (rs : nat -> rec) (fca : bool) (wake : list nat) : list nat * list nat * Z :=
+  match wake with
+  | [] => ([], [], 0)
+  | first :: rest =>
+      let fw := is_W (l_type (rs first)) in
+      let '(m, s, a, b) := xfer_rest_old rs fca fw rest (if fca then fw else false) (if fca then false else negb fw) in
+      (if fca then first :: m else m, if fca then s else first :: s,
+       if a && negb b then MU_WRITER_WAITING else 0)
+  end.
+(* [st_VCas1] with the old transfer; every other step is the model's *)
+Definition st_VCas1_old (w : world) (t : nat) (k : kl) (old : Z) (c : choice) : world * ev :=
+  let new := wake_waiters_cas1_new old in
+  if muw w =? wake_waiters_cas1_old old then
+    let fca := match k_wake k with
+               | first :: _ => has old (match l_type (recs w first) with Some m => zta_of m | None => 0 end)
+               | [] => false end in
+    let '(moved, stay, set_on) := xfer_old (recs w) fca (k_wake k) in
+    let w1 := touch_all (set_muw w new) (k_wake k) in
+    let w2 := set_muq (set_recs w1 (clear_cv_mu (recs w1) moved)) (muq w1 ++ moved) in
+    let envq := env_reports_queued c in
+    let clr := clear_on_release (muq w2) envq in
+    (set_pc (set_mspin w2 (Some t)) t (VLoad3 (kl_set_xfer k stay moved set_on clr envq)), EvCas 102 OBJ_MU old new true)
+  else (set_pc (wake_done w t k) t (enter_wake_loop k), EvCas 102 OBJ_MU old new false).
+Definition step_old (w : world) (a : actor) (c : choice) : world * ev :=
+  match a with
+  | Thr t => let w0 := begin_op w t in
+             match t_pc (get w0 t) with VCas1 k old => st_VCas1_old w0 t k old c | _ => step_core w0 t c end
+  | _ => step w a c
+  end.
+Definition run_old (w : world) (sched : list (actor * choice)) : world :=
+  fold_left (fun w ac => fst (step_old w (fst ac) (snd ac))) sched w.
+
+Definition TT (t n : nat) : list (actor * choice) := repeat (Thr t, CNormal) n.
+(* the regression: thread 0 waits with the nsync_mu (native, writer), thread 1 waits on the same cv through
+   nsync_cv_wait_with_deadline_generic with its own lock routines (record 1: MUCV flag, cv_mu = NULL, l_type = NULL), thread 2
+   broadcasts under the write lock.  Up to the CAS of wake_waiters that takes the mutex spinlock both models agree; at that CAS
+   the OLD transfer puts the generic record on the mutex queue behind the native one, the repaired one leaves it on
+   to_wake_list and wakes it directly (waiting = 0, its semaphore posted) *)
+Lemma old_xfer_moves_generic_run :
+  let progs := [[OLock W; OWait None false false; OUnlock]; [OLock W; OWait None false true; OUnlock]; [OLock W; OBroadcast; OUnlock]] in
+  let pre := TT 0 12 ++ TT 1 11 ++ TT 2 10 in
+  let w0 := run (init progs 0 None) pre in
+  let wo := run_old w0 (TT 2 1) in
+  let wn := run w0 (TT 2 1) in
+  let wn' := run w0 (TT 2 5) in
+  run_old (init progs 0 None) pre = w0 /\
+  (exists k, pcof w0 2%nat = VCas1 k 1 /\ k_wake k = [0; 1]%nat) /\ muw w0 = 1 /\ muq w0 = [] /\
+  is_mucv (recs w0 1%nat) = true /\ cv_mu (recs w0 1%nat) = false /\ l_type (recs w0 1%nat) = None /\
+  (* old code *)
+  muq wo = [0; 1]%nat /\ lc wo 1%nat = PMuq /\ (exists k, pcof wo 2%nat = VLoad3 k /\ k_wake k = [] /\ k_xfer k = [0; 1]%nat) /\
+  (* repaired code *)
+  muq wn = [0%nat] /\ lc wn 1%nat = PPriv 2 /\ (exists k, pcof wn 2%nat = VLoad3 k /\ k_wake k = [1%nat] /\ k_xfer k = [0%nat]) /\
+  muq wn' = [0%nat] /\ lc wn' 1%nat = PNone /\ waiting (recs wn' 1%nat) = 0 /\ sem wn' 1%nat = 1 /\ pcof wn' 2%nat = Idle.
+Proof.
+  cbv zeta. split; [vm_compute; reflexivity|]. split; [eexists; split; vm_compute; reflexivity|].
+  do 5 (split; [vm_compute; reflexivity|]).
+  do 2 (split; [vm_compute; reflexivity|]). split; [eexists; split; [vm_compute; reflexivity|]; split; vm_compute; reflexivity|].
+  do 2 (split; [vm_compute; reflexivity|]). split; [eexists; split; [vm_compute; reflexivity|]; split; vm_compute; reflexivity|].
+  vm_compute. repeat split; reflexivity.
 Qed.
